@@ -827,12 +827,24 @@ def rule_stop_predicates(ctx, rid):
         fi = P.func(qual)
         exits = Evaluator(P).run(fi)
         vals = set()
+        rets = []
         for e in exits:
             if e.kind == 'return':
                 v = e.value
                 if v[0] == 'tuple' and v[1]:
                     v = v[1][0]
                 vals.add(v)
+                rets.append((v, e))
+        # guard-clause form: every path returns a literal True / False - the predicate is the disjunction, over the
+        # paths that return True, of the conjunction of their path conditions
+        if len(vals) > 1 and all(is_c(v) and isinstance(v[1], bool) for v in vals):
+            disj = []
+            for v, e in rets:
+                if v[1] is True:
+                    lits = tuple(c if truth else ('un', 'not', c) for c, truth, _ln in e.state.conds)
+                    disj.append(lits[0] if len(lits) == 1 else ('and', lits))
+            if disj and all(d != ('and', ()) for d in disj):
+                vals = {disj[0] if len(disj) == 1 else ('or', tuple(disj))}
         return fi, vals
 
     def sq(x):
